@@ -1,6 +1,6 @@
 #!/usr/bin/env python3
 """Function-level translator: the bodies of the small pure decision functions of /repo's Rust source
-are re-translated on every run into Lean definitions (lean/Compass/Gen/Fns.lean, generated, never
+are re-translated on every run into Lean definitions (lean/Compass/Gen/Fns<prop>.lean, one file per owning property, generated, never
 hand-edited).  For each one a theorem `gen_<fn>_eq` in the owning property file proves that the generated
 definition equals the hand-written model function the property theorems are about; a source change to
 such a function changes the generated definition and that proof stops checking.
@@ -29,7 +29,7 @@ import re
 from fractions import Fraction
 
 HERE = os.path.dirname(os.path.abspath(__file__))
-OUT = os.environ.get("GEN_FNS_OUT", os.path.join(os.path.dirname(HERE), "lean", "Compass", "Gen", "Fns.lean"))
+OUT_DIR = os.path.join(os.path.dirname(HERE), "lean", "Compass", "Gen")
 
 
 class NotRecognised(Exception):
@@ -517,7 +517,7 @@ def find_fn(toks, impl, fn):
             while toks[j][1] != "{":
                 hdr.append(toks[j][1])
                 j += 1
-            if hdr == [impl]:
+            if hdr == [impl] or " ".join(hdr) == impl:
                 in_impl = 0
             i = j
             continue
@@ -572,6 +572,10 @@ LEAN_KEYWORDS = {"fun", "from", "end", "at", "open", "in", "then", "else", "if",
                  "section", "variable", "import", "Type", "Prop", "Sort", "this", "calc", "using", "deriving", "mutual",
                  "xs_", "rest_", "acc_", "self_"}
 
+# unit enums (generated in Gen/Units.lean, `convert` in Model/Units.lean)
+UNITS = {"DistanceUnit", "TimeUnit", "SpeedUnit", "EnergyUnit", "GradeUnit", "WeightUnit"}
+UNIT_CONSTS = {"BASE_DISTANCE_UNIT": ("baseDistanceUnit", "DistanceUnit"), "BASE_TIME_UNIT": ("baseTimeUnit", "TimeUnit"),
+               "BASE_SPEED_UNIT": ("baseSpeedUnit", "SpeedUnit")}
 # identifier newtypes over usize (`EdgeId(pub usize)`): Nat, compared only
 IDTYPES = {"EdgeId", "VertexId"}
 # structs that the model represents by one of their fields: a value of the struct *is* that field
@@ -611,22 +615,31 @@ ENUMS = {
 
 # functions, in the order of the generated file
 FUNCS = [
-    dict(file=CORE + "/model/termination/termination_model.rs", impl="TerminationModel", fn="terminate_search",
+    dict(file=CORE + "/model/termination/termination_model.rs", impl="TerminationModel", fn="terminate_search", owner="C10",
          drop=["start_time"],
          # the elapsed time is the model's virtual clock `baseNs + perNs * iteration` (the harness's
          # `verif_clock`; in production it is the wall clock, an input the model does not have)
          externs={"Instant::now().duration_since(*start_time)": ("(baseNs + perNs * iteration)", "Duration"),
                   "verif_clock::elapsed(iteration).unwrap_or(dur)": ("(baseNs + perNs * iteration)", "Duration")}),
-    dict(file=CORE + "/algorithm/search/ksp/ksp_termination_criteria.rs", impl="KspTerminationCriteria", fn="terminate_search"),
-    dict(file=CORE + "/model/cost/cost_aggregation.rs", impl="CostAggregation", fn="agg"),
-    dict(file=CORE + "/model/cost/vehicle/vehicle_cost_rate.rs", impl="VehicleCostRate", fn="map_value"),
-    dict(file=CORE + "/model/unit/cost.rs", impl="Cost", fn="enforce_strictly_positive"),
-    dict(file=CORE + "/model/unit/cost.rs", impl="Cost", fn="enforce_non_negative"),
+    dict(file=CORE + "/algorithm/search/ksp/ksp_termination_criteria.rs", impl="KspTerminationCriteria", fn="terminate_search", owner="C13"),
+    dict(file=CORE + "/model/cost/cost_aggregation.rs", impl="CostAggregation", fn="agg", owner="C07"),
+    dict(file=CORE + "/model/cost/vehicle/vehicle_cost_rate.rs", impl="VehicleCostRate", fn="map_value", owner="C07"),
+    dict(file=CORE + "/model/unit/cost.rs", impl="Cost", fn="enforce_strictly_positive", owner="C07"),
+    dict(file=CORE + "/model/unit/cost.rs", impl="Cost", fn="enforce_non_negative", owner="C07"),
     # the two state variables are not looked at by the code (they are only handed on to the members)
-    dict(file=CORE + "/model/cost/network/network_cost_rate.rs", impl="NetworkCostRate", fn="traversal_cost",
+    dict(file=CORE + "/model/cost/network/network_cost_rate.rs", impl="NetworkCostRate", fn="traversal_cost", owner="C07",
          drop=["_prev_state_var", "_next_state_var"]),
-    dict(file=CORE + "/model/cost/network/network_cost_rate.rs", impl="NetworkCostRate", fn="access_cost",
+    dict(file=CORE + "/model/cost/network/network_cost_rate.rs", impl="NetworkCostRate", fn="access_cost", owner="C07",
          drop=["_prev_state_var", "_next_state_var"]),
+    # the two From impls `(d, s).into()` / `(d, t).into()` resolve to, then the constructors
+    dict(file=CORE + "/model/unit/time.rs", impl=None, impl_header="From < ( Distance , Speed ) > for Time", fn="from", owner="C09",
+         lean="Time_from_Distance_Speed", label="From<(Distance, Speed)> for Time", self_type="Time", into=(("Distance", "Speed"), "Time")),
+    dict(file=CORE + "/model/unit/speed.rs", impl=None, impl_header="From < ( Distance , Time ) > for Speed", fn="from", owner="C09",
+         lean="Speed_from_Distance_Time", label="From<(Distance, Time)> for Speed", self_type="Speed", into=(("Distance", "Time"), "Speed")),
+    dict(file=CORE + "/model/unit/builders.rs", impl=None, fn="create_time", owner="C09"),
+    dict(file=CORE + "/model/unit/builders.rs", impl=None, fn="create_speed", owner="C09"),
+    dict(file=PT + "/routee/vehicle/vehicle_ops.rs", impl=None, fn="as_soc_percent", owner="C08"),
+    dict(file=PT + "/routee/vehicle/vehicle_ops.rs", impl=None, fn="soc_from_battery_and_delta", owner="C08"),
 ]
 
 
@@ -648,6 +661,10 @@ def dec_to_frac(lit):
 # ---------------------------------------------------------------------------------------------------
 # printer.  Internal types: "usize"/"u64"/… , "i32"/… , "IntLit", "Num", "Bool", "String", "Duration",
 # ("List", t), ("Prod", [t…]), ("Enum", rust name), ("Opt", t)
+def is_num(t):
+    return isinstance(t, str) and t.startswith("Num:")
+
+
 def is_uint(t):
     return isinstance(t, str) and t in UNSIGNED
 
@@ -666,7 +683,9 @@ class Ctx:
         self.cfg, self.repo = cfg, repo
         self.fn = cfg["fn"]
         self.impl = cfg.get("impl")
-        self.lean_name = (self.impl + "_" if self.impl else "") + self.fn
+        self.impl_find = cfg.get("impl_header", self.impl)
+        self.lean_name = cfg.get("lean") or ((self.impl + "_" if self.impl else "") + self.fn)
+        self.into_table = {}
         self.aliases = {"Self": self.impl} if self.impl else {}
         self.guards = []
         self.aux = []          # (name, text, recursive)
@@ -677,10 +696,16 @@ class Ctx:
     # --- types
     def conv_type(self, t):
         name, args = t
+        if name == "Self" and self.cfg.get("self_type"):
+            name = self.cfg["self_type"]
         if name in UNSIGNED or name in SIGNED:
             return name
-        if name in NUMTYPES:
-            return "Num"
+        if name == "OrderedFloat" and len(args) == 1 and args[0] == ("f64", []):
+            return "Num:f64"
+        if name in UNITS and not args:
+            return ("Unit", name)
+        if name in NUMTYPES and not args:
+            return "Num:" + name
         if name == "bool":
             return "Bool"
         if name in ("String", "str"):
@@ -709,9 +734,12 @@ class Ctx:
             return "Nat"
         if is_sint(t):
             return "Int"
-        if t == "Num":
+        if is_num(t):
             self.uses_alpha = True
             return "α"
+        if t[0] == "Unit":
+            self.imports.add("Compass.Model.Units")
+            return t[1]
         if t in ("Bool", "String"):
             return t
         if t[0] == "List":
@@ -795,6 +823,8 @@ class Ctx:
             return b
         if b == "IntLit" and (is_uint(a) or is_sint(a)):
             return a
+        if is_num(a) and is_num(b) and "Num:f64" in (a, b):
+            return b if a == "Num:f64" else a
         refuse(f"{what}: operand types {a} and {b}")
 
     def tr(self, e, env):
@@ -809,7 +839,7 @@ class Ctx:
         if k == "float":
             n, d = dec_to_frac(e[1])
             self.uses_alpha = True
-            return f"(Lit.lit {n} {d} : α)", "Num"
+            return f"(Lit.lit {n} {d} : α)", "Num:f64"
         if k == "bool":
             return ("true" if e[1] else "false"), "Bool"
         if k == "path":
@@ -821,7 +851,7 @@ class Ctx:
                 return x, t
             if op == "!" and t == "Bool":
                 return f"(!{x})", t
-            if op == "-" and (t == "Num" or is_sint(t)):
+            if op == "-" and (is_num(t) or is_sint(t)):
                 return f"(-{x})", t
             refuse(f"unary {op} on {t}")
         if k == "cast":
@@ -838,8 +868,8 @@ class Ctx:
             return self.tr_binary(e, env)
         if k == "field":
             x, t = self.tr(e[1], env)
-            if t == "Num" and e[2] == "0":
-                return x, t
+            if is_num(t) and t != "Num:f64" and e[2] == "0":
+                return x, "Num:f64"
             if t[0] == "Struct" and e[2] == STRUCTS[t[1]]["field"]:
                 return x, STRUCTS[t[1]]["field_type"]
             refuse(f"field .{e[2]} of {t}")
@@ -881,6 +911,9 @@ class Ctx:
             x, t = self.tr(rhs, env)
             if p[0] == "wild":
                 return ""
+            if p[0] == "tuple":
+                lp = self.bind_pat(p, t, env)
+                return f"let {lp} := {x}; "
             if p[0] != "bind":
                 refuse("let with a destructuring pattern")
             env[p[1]] = t
@@ -888,7 +921,9 @@ class Ctx:
         refuse("statement")
 
     def tr_path(self, segs, env):
-        if len(segs) == 1:
+        if len(segs) == 1 and segs[0] not in env and segs[0] in UNIT_CONSTS:
+            pass
+        elif len(segs) == 1:
             n = segs[0]
             if n in env:
                 return self.name(n), env[n]
@@ -898,12 +933,18 @@ class Ctx:
         if len(segs) == 2 and segs[0] in NUMTYPES:
             self.uses_alpha = True
             if segs[1] == "ZERO":
-                return "(Compass.zero : α)", "Num"
+                return "(Compass.zero : α)", "Num:" + segs[0]
             if segs[1] == "ONE":
-                return "(Compass.one : α)", "Num"
+                return "(Compass.one : α)", "Num:" + segs[0]
             if segs == ["Cost", "MIN_COST"]:
                 self.imports.add("Compass.Gen.Consts")
-                return "(Lit.lit minCostLit.1 minCostLit.2 : α)", "Num"
+                return "(Lit.lit minCostLit.1 minCostLit.2 : α)", "Num:Cost"
+        if len(segs) == 1 and segs[0] in UNIT_CONSTS:
+            self.imports.add("Compass.Model.Units")
+            return UNIT_CONSTS[segs[0]][0], ("Unit", UNIT_CONSTS[segs[0]][1])
+        if len(segs) == 2 and segs[0] in UNITS and re.fullmatch(r"[A-Z]\w*", segs[1]):
+            self.imports.add("Compass.Model.Units")
+            return f"({segs[0]}.{segs[1][0].lower() + segs[1][1:]} : {segs[0]})", ("Unit", segs[0])
         rv = self.resolve_variant(segs)
         if rv:
             en, v = rv
@@ -922,7 +963,7 @@ class Ctx:
             if e[1] in ("==", "!="):
                 if not (is_uint(t) or is_sint(t) or t == "Bool" or t == "Duration"):
                     refuse(f"{e[1]} on {t}")
-            elif not (is_uint(t) or is_sint(t) or t in ("Num", "Duration")):
+            elif not (is_uint(t) or is_sint(t) or is_num(t) or t == "Duration"):
                 refuse(f"{e[1]} on {t}")
             op = {"==": "=", "!=": "≠", "<": "<", ">": ">", "<=": "≤", ">=": "≥"}[e[1]]
             return f"{a} {op} {b}"
@@ -948,7 +989,9 @@ class Ctx:
         a, ta = self.tr(e[2], env)
         b, tb = self.tr(e[3], env)
         t = self.unify(ta, tb, op)
-        if t == "Num":
+        if is_num(t):
+            if op == "%":
+                refuse("% on floats")
             return f"({a} {op} {b})", t
         if t == "IntLit":
             refuse("arithmetic on two literals")
@@ -975,9 +1018,9 @@ class Ctx:
         wrappers = {t for t in NUMTYPES if t != "f64"} | {t + "::new" for t in NUMTYPES} | {t + "::from" for t in NUMTYPES}
         if name in wrappers and len(args) == 1:
             x, t = self.tr(args[0], env)
-            if t != "Num":
+            if not is_num(t):
                 refuse(f"{name} of {t}")
-            return x, t
+            return x, "Num:" + segs[0]
         if name in ("Ok", "Err", "Some"):
             refuse(f"{name}(..) outside tail position")
         refuse(f"call of {name}")
@@ -1062,8 +1105,29 @@ class Ctx:
         r, t = self.tr(recv, env)
         if name in ("clone", "to_owned") and not args:
             return r, t
-        if name in ("as_f64", "into_inner") and not args and t == "Num":
-            return r, t
+        if name in ("as_f64", "into_inner") and not args and is_num(t):
+            return r, "Num:f64"
+        # f64::clamp(lo, hi) with literal bounds lo <= hi (otherwise it can panic): the std definition
+        if name == "clamp" and len(args) == 2 and is_num(t) and args[0][0] == "float" and args[1][0] == "float":
+            if Fraction(args[0][1].replace("_", "").replace("f64", "")) > Fraction(args[1][1].replace("_", "").replace("f64", "")):
+                refuse("clamp with min > max")
+            lo, _ = self.tr(args[0], env)
+            hi, _ = self.tr(args[1], env)
+            return f"(let x_ := {r}; if x_ < {lo} then {lo} else if x_ > {hi} then {hi} else x_)", t
+        # unit.convert(&value, &target)
+        if name == "convert" and len(args) == 2 and t[0] == "Unit":
+            v, tv = self.tr(args[0], env)
+            u, tu = self.tr(args[1], env)
+            if tu != t or not is_num(tv):
+                refuse(f"convert({tv}, {tu}) on {t}")
+            return f"({t[1]}.convert {r} {u} {v})", tv
+        # (a, b).into(): resolved through the From impls translated in the same file
+        if name == "into" and not args and t[0] == "Prod" and all(is_num(x) for x in t[1]):
+            key = tuple(x[4:] for x in t[1])
+            if key not in self.into_table:
+                refuse(f"no translated From<{key}> impl for .into()")
+            fn, res = self.into_table[key]
+            return f"({fn} {r})", "Num:" + res
         if name == "is_empty" and not args and t[0] == "List":
             return f"({r}.isEmpty)", "Bool"
         if name == "len" and not args and t[0] == "List":
@@ -1294,7 +1358,7 @@ class Ctx:
         path = os.path.join(self.repo, self.cfg["file"])
         with open(path) as f:
             toks = tokenize(f.read())
-        has_self, params, ret, body = parse_fn(toks, self.impl, self.fn)
+        has_self, params, ret, body = parse_fn(toks, self.impl_find, self.fn)
         self.ret_declared = ret
         self.params = [(n, (None if n in self.cfg.get("drop", []) else self.conv_type(t))) for n, t in params]
         self.recursive_calls = 0
@@ -1319,7 +1383,8 @@ class Ctx:
         if self.guards:
             refuse("internal: guards left over")
         main = f"def {self.lean_name}{sig} : {self.lean_type(self.ret)} :=\n  {text}\n"
-        doc = (f"/-- `{(self.impl + '::') if self.impl else ''}{self.fn}` as it stands in `{self.cfg['file']}` -/\n")
+        label = self.cfg.get("label") or ((self.impl + "::" if self.impl else "") + self.fn)
+        doc = (f"/-- `{label}` as it stands in `{self.cfg['file']}` -/\n")
         rec_aux = [a for a in self.aux if a[2]]
         out = "".join(a[1] + "\n" for a in self.aux if not a[2])
         if rec_aux:
@@ -1329,27 +1394,30 @@ class Ctx:
         return out
 
 
-def generate(repo):
-    """(text of Gen/Fns.lean, [names translated], [(name, reason) not recognised])"""
-    blocks, imports, done, skipped = [], {"Compass.Model.Num"}, [], []
-    for cfg in FUNCS:
-        label = (cfg["impl"] + "::" if cfg.get("impl") else "") + cfg["fn"]
+def generate_file(repo, owner, cfgs):
+    """(text of Gen/Fns<owner>.lean, [names translated], [(name, reason) not recognised])"""
+    blocks, imports, done, skipped, into_table = [], {"Compass.Model.Num"}, [], [], {}
+    for cfg in cfgs:
+        label = cfg.get("label") or ((cfg["impl"] + "::" if cfg.get("impl") else "") + cfg["fn"])
         try:
             c = Ctx(cfg, repo)
+            c.into_table = into_table
             text = c.translate()
             blocks.append(text)
             imports |= c.imports
             done.append(label)
+            if cfg.get("into"):
+                into_table[tuple(cfg["into"][0])] = (c.lean_name, cfg["into"][1])
         except NotRecognised as ex:
             skipped.append((label, str(ex)))
             blocks.append(f"-- NOT RECOGNISED: {label} ({ex})\n")
-        except (OSError, IndexError, KeyError, ValueError) as ex:
+        except (OSError, IndexError, KeyError, ValueError, TypeError) as ex:
             skipped.append((label, f"{type(ex).__name__}: {ex}"))
             blocks.append(f"-- NOT RECOGNISED: {label} ({type(ex).__name__}: {ex})\n")
     out = ["-- GENERATED by tools/gen_fns.py (called from tools/gen_model.py) from /repo sources — do not edit",
-           "-- function bodies of the Rust source, re-translated on every run; see the header of tools/gen_fns.py",
-           "-- for the conventions (number newtypes are α, unsigned integers are Nat, Result is Option, folds are",
-           "-- auxiliary recursive functions).  Tied to the hand-written model by the `gen_*_eq` theorems."]
+           f"-- function bodies of the Rust source that property {owner} relies on, re-translated on every run; see the",
+           "-- header of tools/gen_fns.py for the conventions (number newtypes are α, unsigned integers are Nat, Result is",
+           f"-- Option, folds are auxiliary recursive functions).  Tied to the model by the `gen_*_eq` theorems of Props/{owner}.lean."]
     out += [f"import {i}" for i in sorted(imports)]
     out += ["", "set_option linter.unusedVariables false", "", "namespace Compass", "namespace Gen", "",
             "variable {α : Type} [Add α] [Sub α] [Mul α] [Div α] [Neg α] [LT α] [LE α] [DecidableLT α] [DecidableLE α] [Lit α]",
@@ -1360,14 +1428,25 @@ def generate(repo):
 
 
 def main(repo, write_if_changed):
-    text, done, skipped = generate(repo)
-    ch = write_if_changed(OUT, text)
-    msg = (f"function translator: Fns.lean {'rewritten' if ch else 'unchanged'}, {len(done)} of {len(FUNCS)} functions translated"
-           + (": " + ", ".join(done) if done else ""))
-    print(msg)
-    for label, why in skipped:
+    """one generated file per owning property, so that a function of one property that is not recognised (or whose
+    translation does not elaborate) cannot break the Props file of another property"""
+    owners = []
+    for cfg in FUNCS:
+        if cfg["owner"] not in owners:
+            owners.append(cfg["owner"])
+    all_done, all_skipped, changed = [], [], []
+    for owner in owners:
+        cfgs = [c for c in FUNCS if c["owner"] == owner]
+        text, done, skipped = generate_file(repo, owner, cfgs)
+        if write_if_changed(os.path.join(OUT_DIR, f"Fns{owner}.lean"), text):
+            changed.append(f"Fns{owner}.lean")
+        all_done += [f"{owner}:{d}" for d in done]
+        all_skipped += [(f"{owner}:{l}", w) for l, w in skipped]
+    print(f"function translator: {len(all_done)} of {len(FUNCS)} functions translated into Gen/Fns<prop>.lean for "
+          f"{', '.join(owners)} ({'rewritten: ' + ', '.join(changed) if changed else 'all unchanged'})")
+    for label, why in all_skipped:
         print(f"function translator: NOT recognised: {label} — {why}")
-    return done, skipped
+    return all_done, all_skipped
 
 
 if __name__ == "__main__":
